@@ -4,8 +4,8 @@
    limits a range · witnesses and examples. *)
 From Coq Require Import List NArith ZArith Bool Arith Lia.
 Import ListNotations.
-From Verif Require Import Base.Val C01.Model_C01 C04.Model_C04 C04.Spec_C04 C44.Model_C44 C45.Model_C45 C45.Spec_C45
-  gen.Tables_C45.
+From Verif Require Import Base.Val C01.Model_C01 C04.Model_C04 C04.Spec_C04 C44.Model_C44 C45.Model_C45 C45.Spec_C45 gen.Tables_C45.
+From Verif Require C01.Spec_C01 C01.Proofs_C01 C01.Grammar_C01.
 From Verif Require C03.Model_C03.
 Local Open Scope N_scope.
 
@@ -239,7 +239,7 @@ Proof.
 Qed.
 
 (* the repaired implementation flags exactly the affected packages, outside the known classes *)
-Lemma affected_is_spec_partial_proof : forall e p,
+Lemma affected_is_spec_under_compat : forall e p,
   read_entry e <> None -> known_class e p = false -> revs_compat e p = true ->
   flagged true e p = affected_spec e p.
 Proof.
@@ -283,6 +283,53 @@ Proof.
       set (b1 := atom_match _ _ _). set (b2 := existsb _ (v :: vs')). set (b3 := existsb _ (words _)).
       set (b4 := forallb _ us'). destruct b1, b2, b3, b4; reflexivity.
   - rewrite (vuln0_eval vl p Hvne), Hv, andb_true_r, andb_assoc. reflexivity.
+Qed.
+
+(* ------------------------------------------------------------------ the revision is the last tie-breaker *)
+Lemma pms_rev_last a ra b rb :
+  Spec_C01.pms_cmp a ra b rb
+  = if Z.eqb (Spec_C01.pms_cmp a 0 b 0) 0 then cmpN ra rb else Spec_C01.pms_cmp a 0 b 0.
+Proof.
+  unfold Spec_C01.pms_cmp.
+  destruct (Z.eqb (Spec_C01.pms_nums (Spec_C01.nums a) (Spec_C01.nums b)) 0) eqn:E1; cbn [negb];
+    [|rewrite E1; reflexivity].
+  destruct (Z.eqb (Spec_C01.pms_letter (Spec_C01.letter a) (Spec_C01.letter b)) 0) eqn:E2; cbn [negb];
+    [|rewrite E2; reflexivity].
+  destruct (Z.eqb (Spec_C01.pms_sufs (Spec_C01.sufs a) (Spec_C01.sufs b)) 0) eqn:E3; cbn [negb];
+    [|rewrite E3; reflexivity].
+  reflexivity.
+Qed.
+
+(* for all valid versions: comparing with revisions = comparing without, and by revision on a tie *)
+Lemma rev_last_tiebreak_proof : forall v1 v2 r1 r2,
+  valid_version_core v1 = true -> valid_version_core v2 = true ->
+  ver_cmp v1 r1 v2 r2
+  = if Z.eqb (ver_cmp v1 None v2 None) 0 then cmpN (rev_val r1) (rev_val r2) else ver_cmp v1 None v2 None.
+Proof.
+  intros v1 v2 r1 r2 H1 H2.
+  apply Grammar_C01.valid_core_is_version in H1 as (a & Ha & <-).
+  apply Grammar_C01.valid_core_is_version in H2 as (b & Hb & <-).
+  rewrite !Proofs_C01.ver_cmp_is_pms_proof by assumption. cbn [rev_val]. apply pms_rev_last.
+Qed.
+
+Lemma rev_compat_valid w p :
+  valid_version_core (p_ver p) = true -> valid_version_core (w_ver w) = true -> rev_compat w p = true.
+Proof. intros H1 H2. unfold rev_compat. apply Z.eqb_eq. apply rev_last_tiebreak_proof; assumption. Qed.
+
+Lemma revs_compat_valid e p : versions_valid e p = true -> revs_compat e p = true.
+Proof.
+  unfold versions_valid, revs_compat, versions_valid_of, revs_compat_of. intros H.
+  apply andb_true_iff in H as [Hp H]. destruct (read_entry e) as [[[a vs] us]|]; [|reflexivity].
+  rewrite forallb_forall in *. intros w Hi. apply rev_compat_valid; [exact Hp|apply H, Hi].
+Qed.
+
+(* the repaired implementation flags exactly the affected packages: every GLSA-format entry, every
+   installed package, all versions valid, outside the known classes *)
+Lemma affected_is_spec_partial_proof : forall e p,
+  read_entry e <> None -> known_class e p = false -> versions_valid e p = true ->
+  flagged true e p = affected_spec e p.
+Proof.
+  intros e p H1 H2 H3. apply affected_is_spec_under_compat; [exact H1|exact H2|apply revs_compat_valid, H3].
 Qed.
 
 (* ------------------------------------------------------------------ pinned tree vs repaired *)
@@ -479,13 +526,13 @@ Definition e_k4 := E "a/b" None [R "rlt" None (Some "1.0"%bs); R "lt" None (Some
 
 (* the full statement (no class excluded), for the pinned tree and for the repaired one *)
 Definition C45_full_statement (fix_ : bool) : Prop :=
-  forall e p, read_entry e <> None -> revs_compat e p = true -> flagged fix_ e p = affected_spec e p.
+  forall e p, read_entry e <> None -> versions_valid e p = true -> flagged fix_ e p = affected_spec e p.
 
 Ltac refute e p :=
   let H := fresh in
   intros H; specialize (H e p);
   assert (Hre : read_entry e <> None) by (vm_compute; discriminate);
-  assert (Hrc : revs_compat e p = true) by (vm_compute; reflexivity);
+  assert (Hrc : versions_valid e p = true) by (vm_compute; reflexivity);
   specialize (H Hre Hrc); vm_compute in H; discriminate H.
 
 (* pinned tree, K1: the package that matches the unaffected glob is the one that is flagged *)
@@ -519,7 +566,7 @@ Definition e_ok := E " a/b " (Some "x86 amd64"%bs)
                      [R "ge" None (Some "1.5"%bs); R "eq" (Some "0"%bs) (Some "0.5"%bs)].
 Example ex_entry_ok :
   read_entry e_ok <> None /\ entry_not_pinned e_ok
-  /\ known_class e_ok b10r1_s1 = false /\ revs_compat e_ok b10r1_s1 = true
+  /\ known_class e_ok b10r1_s1 = false /\ versions_valid e_ok b10r1_s1 = true
   /\ flagged true e_ok b10r1_s1 = true /\ affected_spec e_ok b10r1_s1 = true
   /\ flagged true e_ok b05 = false       (* the unaffected = 0.5 in slot 0 *)
   /\ flagged true e_ok b15 = false       (* >= 1.5 unaffected, and arm *)
